@@ -1,18 +1,23 @@
 #!/bin/bash
-# Official pass: applies each seeded change to /repo, runs the quick check(s) of the property it breaks
-# (plus any extra properties given as "id:Cxx,Cyy" arguments), undoes the change, records the outcome.
+# Official pass: applies each seeded change to /repo, runs the quick check of the property it breaks,
+# undoes the change and records the outcome in seeded/MATRIX.txt.
+# usage: lib/seed_matrix.sh [seed-id ...]     (default: every seed; given ids replace their lines)
 cd /verif
 out=seeded/MATRIX.txt
-: > $out
-for d in seeded/*/; do
-  id=$(basename $d); prop=${id%%-*}
+touch $out
+if [ $# -eq 0 ]; then ids=$(ls -d seeded/*/ | xargs -n1 basename); : > $out; else ids="$*"; fi
+for id in $ids; do
+  d=seeded/$id; prop=${id%%-*}
   [ -f $d/patch.diff ] || continue
+  grep -v "^$id " $out > $out.tmp; mv $out.tmp $out
   if ! git -C /repo apply --check $PWD/$d/patch.diff 2>/dev/null; then echo "$id patch does not apply" | tee -a $out; continue; fi
   git -C /repo apply $PWD/$d/patch.diff
   start=$(date +%s)
   res=$(./check $prop 2>&1); rc=$?
   first=$(echo "$res" | grep "violation \[" | head -1 | cut -c1-260)
   git -C /repo checkout -- . ; git -C /repo clean -fdq src/
+  rm -f /tmp/arroy-*.lock
   echo "$id check=$prop rc=$rc $(( $(date +%s) - start ))s :: $first" | tee -a $out
 done
+sort -o $out $out
 git -C /repo status --short
